@@ -1,9 +1,92 @@
 import Driver.Json
-open Lean Drv
+import Model.Ragged
+open Lean Drv Ens Ens.Ragged
 
 namespace Drv.C05
 
-def handle (op : String) (_req : Json) : Except String Json :=
-  throw s!"bad-op C05.{op}"
+def errStr : Err → String
+  | .indexError => "index-error"
+  | .valueError => "value-error"
+  | .typeError => "type-error"
+  | .other => "other"
+
+def getSlice (j : Json) : Except String PySlice := do
+  match ← getArr j with
+  | [a, b, c] => pure { start := ← getOptInt a, stop := ← getOptInt b, step := ← getOptInt c }
+  | _ => throw "slice needs [start, stop, step]"
+
+def getPart (j : Json) : Except String Part := do
+  let t ← getStr (← field j "t")
+  match t with
+  | "int" => pure (.int (← getInt (← field j "v")))
+  | "slice" => pure (.slice (← getSlice (← field j "v")))
+  | "list" => pure (.list (← getList getInt (← field j "v")) false)
+  | "arr" => pure (.list (← getList getInt (← field j "v")) true)
+  | _ => throw s!"bad index part {t}"
+
+def getMask (j : Json) : Except String (RA Bool) := do
+  let m ← getList (getList getBool) (← field j "v")
+  pure ⟨m.flatten, m.map List.length⟩
+
+def getIndex (j : Json) : Except String Index := do
+  let t ← getStr (← field j "t")
+  match t with
+  | "tuple" => pure (.two (← getPart (← field j "r")) (← getPart (← field j "c")))
+  | "mask" => pure (.mask (← getMask j))
+  | _ => pure (.one (← getPart j))
+
+/-- the array under test: cells are their own flat position -/
+def mkRA (req : Json) : Except String (Except Err (RA Nat) × Bool) := do
+  let lengths ← getList getNat (← field req "lengths")
+  let ctor ← getStr (← field req "ctor")
+  let fast ← getBool (← field req "fast")
+  let ids := List.range lengths.sum
+  match ctor with
+  | "rows" => pure (.ok (ofRows (partitionAux ids 0 lengths)), fast)
+  | "flat" => pure (ofFlat ids lengths, fast)
+  | _ => throw s!"bad ctor {ctor}"
+
+def rowsJson (r : List (List Nat)) : Json := listJson (listJson natJson) r
+
+def resJson : Res Nat → Json
+  | .arr l => Json.mkObj [("k", Json.str "arr"), ("v", listJson natJson l)]
+  | .ra r => Json.mkObj [("k", Json.str "rows"), ("v", rowsJson (rows r)),
+                         ("lengths", listJson natJson r.lengths), ("data", listJson natJson r.data)]
+
+def wrap {β} (f : β → Json) : Except Err β → Json
+  | .error e => errJson (errStr e)
+  | .ok v => okJson (f v)
+
+def handle (op : String) (req : Json) : Except String Json := do
+  match op with
+  | "slice" =>
+    let len ← getNat (← field req "len")
+    let s ← getSlice (← field req "v")
+    match s.indices len with
+    | none => pure (errJson "value-error")
+    | some ix => pure (okJson (listJson natJson ix))
+  | "get" =>
+    let (ra?, fast) ← mkRA req
+    let idx ← getIndex (← field req "idx")
+    pure (wrap resJson (ra? >>= fun ra => getItem ra fast idx))
+  | "where" =>
+    let m ← getMask (← field req "idx")
+    pure (wrap (fun ps => Json.arr #[listJson natJson (ps.map (·.1)), listJson natJson (ps.map (·.2))]) (whereIdx m))
+  | "iter" =>
+    let (ra?, fast) ← mkRA req
+    pure (wrap rowsJson (ra? >>= fun ra => iter ra fast))
+  | "flatten" =>
+    let (ra?, _) ← mkRA req
+    pure (wrap (listJson natJson) (ra?.map flatten))
+  | "attrs" =>
+    let (ra?, fast) ← mkRA req
+    pure (wrap id (ra? >>= fun ra => do
+      let sh ← shape ra
+      let n ← len ra fast
+      pure (Json.mkObj [("lengths", listJson natJson ra.lengths),
+                        ("starts", listJson natJson (starts ra.lengths)),
+                        ("shape", Json.arr #[natJson sh.1, optJson natJson sh.2]),
+                        ("size", natJson (size ra)), ("len", natJson n)])))
+  | _ => throw s!"bad-op C05.{op}"
 
 end Drv.C05
